@@ -100,36 +100,33 @@ func c31RunBehaviour(raw []byte) ([]map[string]any, string) {
 		}
 	}
 
-	outcome := "ok"
 	cancelled, doneLogged := false, false
-	for i, st := range b.Steps {
-		s.Log(map[string]any{"ev": "at", "t": st.T, "p": st.P})
-		var err error
-		if st.P == "cancel" {
+	outcome := gate.RunSteps(s, b.Steps,
+		func(i int, st gate.Step, drifted bool) (bool, error) {
+			if st.P != "cancel" {
+				return false, nil
+			}
+			if cancelled {
+				return true, nil
+			}
 			s.Log(map[string]any{"ev": "close_call"})
 			cancelled = true
 			cancel()
-			_, err = s.Await(st.T)
-		} else {
-			_, err = s.Step(st.T, st.P)
-		}
-		if err != nil {
-			outcome = gate.StepErr(i, st, err)
-			break
-		}
-		if st.P == "ser.exit" {
-			// the run goroutine ended: Done() must be closed now
-			if !gate.WaitTimeout(cs.Done(), 2*time.Second) {
-				outcome = fmt.Sprintf("drift: step %d: Done not closed after the run loop exited", i)
-				break
+			_, err := s.Await(st.T)
+			return true, err
+		},
+		func(i int, st gate.Step) string {
+			if !doneLogged && s.At("run") == "end" {
+				// the run goroutine ended: Done() must be closed now
+				if !gate.WaitTimeout(cs.Done(), 5*time.Second) {
+					return fmt.Sprintf("drift: step %d: Done not closed after the run loop exited", i)
+				}
+				s.Log(map[string]any{"ev": "done"})
+				doneLogged = true
 			}
-			s.Log(map[string]any{"ev": "done"})
-			doneLogged = true
-		}
-		if outcome = gate.CheckExp(i, st, c31State(cs)); outcome != "ok" {
-			break
-		}
-	}
+			return ""
+		},
+		func() map[string]any { return c31State(cs) })
 	// free run to the end: submitters finish, then shutdown, then Done
 	s.Free()
 	go s.Drain(stop)
